@@ -922,7 +922,7 @@ func runC18(a runArgs) error {
 	e := NewEmitter("C18", "Monitor.Run")
 	e.ShardSize = 120
 	e.Preamble = "From GoCoap Require Import Monitor.Model."
-	e.Rule = "event histories (message received / pong for generation g / tick at virtual time t, spacings at the period -200ms,-1ns,0,+1ns,+200ms, several ticks per period, retry limits 0-3) applied to the real inactivity.Monitor / KeepAlive (component drivers mon, conns, ka, kaconns), to a udp client Conn over an in-memory session (udp, udpconns), to a tcp client Conn over a pipe (tcp) and to the udp server (srv: handleInactivityMonitors + datagram path getConn), all wired by options.WithInactivityMonitor / WithKeepAlive; plus byte-level histories on a tcp client Conn over a scripted socket (tcps: 1-4 messages encoded by the real tcp coder, handed over in reads cut inside the header / one byte before the end of a frame / across frame ends / byte by byte, ticks around the expiry of the latest COMPLETE message and right after fragments); distinct = distinct history; non-trivial = the monitor acted at least once (ping or close) and at least one message or pong was received (tcps: and at least one read completed no message)"
+	e.Rule = "event histories (message received / pong for generation g / tick at virtual time t, spacings at the period -200ms,-1ns,0,+1ns,+200ms, several ticks per period, retry limits 0-3) applied to the real inactivity.Monitor / KeepAlive (component drivers mon, conns, ka, kaconns), to a udp client Conn over an in-memory session (udp, udpconns), to a tcp client Conn over a pipe (tcp) and to the udp server (srv: handleInactivityMonitors + datagram path getConn), all wired by options.WithInactivityMonitor / WithKeepAlive; plus byte-level histories on a tcp client Conn over a scripted socket (tcps: 1-4 messages encoded by the real tcp coder, handed over in reads cut inside the header / one byte before the end of a frame / across frame ends / byte by byte, ticks around the expiry of the latest COMPLETE message and right after fragments); plus messages SENT by the local side to a possibly silent peer (udp: NON request, NON notification, CON request that is never acknowledged, Do; srv, tcp: WriteMessage) between the receptions and ticks; plus system histories over 2-4 connections whose monitors come from ONE cfg.CreateInactivityMonitor factory (mudp: udp client Conns, mtcp: tcp client Conns, msrv: the peers of a real udp server; talkative and silent peers, housekeeping rounds over all of them, per-connection pongs/ticks/sends), judged per connection; distinct = distinct history; non-trivial = the monitor acted at least once (ping or close) and at least one message or pong was received (tcps: and at least one read completed no message; mudp/mtcp/msrv: the monitors of at least two connections acted)"
 	if a.only != "" {
 		f := strings.Fields(a.only)
 		switch f[0] {
